@@ -19,7 +19,8 @@ ASSUMPTIONS = ['value-level reading of "is a group": identity wrappers (Concat o
                'group names with non-ASCII word characters and duplicate names are unspecified']
 OWNED = ('diff:groups', 'diff:match', 'not_compilable')
 
-GROUPY = ['(', ')', '(?:', '(?P<n>', '(?i:', '?:', '?P<', '(a)', ')(', '(?P<n>a)', '(?:a)', '(?i:a)', '\\(', 'a', 'b', 'ab', 'A']
+GROUPY = ['(', ')', '(?:', '(?P<n>', '(?i:', '?:', '?P<', '(a)', ')(', '(?P<n>a)', '(?:a)', '(?i:a)', '\\(', 'a', 'b', 'ab', 'A',
+          '\n', 'a\n', '\n(', 'k:\n', '\r\n', '^', '$', '>', '<n>', 'a>']        # line breaks / anchors-as-text right in front of a following group
 
 
 def leaf():
@@ -116,6 +117,33 @@ def strategy(spec, ctx):
     })
 
 
+def conversion_grid():
+    """Every group conversion (Group / flagged Group / Capture / named Capture) applied to every kind of group that holds another
+    group, with a hostile separator text next to the inner group (nothing, a letter, raw line breaks, parentheses, '>', anchors as
+    text): the conversion rewrites the *outermost* opener only, whatever the text in between looks like."""
+    def g(kind, x, name):
+        if kind == 'capn':
+            return ['cap', 'class', x, name]
+        if kind == 'cap':
+            return ['cap', 'method', x, None]
+        if kind == 'grp':
+            return ['grp', 'method', x, False]
+        return ['grp', 'class', x, True]
+    kinds = ['capn', 'cap', 'grp', 'grp_ci']
+    seps = ['', 'x', '\n', 'k:\n', '\r\n', '(', ')', '>', '^', '$', '\\', '|']
+    y = ['lit', 'v', True]
+    for inner in kinds:
+        for sep in seps:
+            for outer in kinds:
+                for top in kinds:
+                    for before in (True, False):
+                        lit = ['lit', sep, True]
+                        body = [lit, g(inner, y, 'a')] if before else [g(inner, y, 'a'), lit]
+                        if sep == '':
+                            body = [g(inner, y, 'a'), ['lit', 'w', True]] if before else [g(inner, y, 'a')]
+                        yield {'tree': g(top, g(outer, ['cat', 'class', body], 'b'), 'c'), 'tseed': 3}
+
+
 def shards(tier):
     n = 15 if tier == 'quick' else 63
     return [{'examples': 1500 if tier == 'quick' else 8000, 'max_leaves': 4 + (i % 3)} for i in range(n)] + [{'mode': 'manycaps'}]
@@ -126,5 +154,6 @@ def run_shard(spec, ctx):
         from pbt.common import run_enumeration
         from pbt.props.c02 import manycaps_cases
         run_enumeration(ctx, manycaps_cases(), check_case, '10-13 capturing groups x two-digit backreference x digit-leading literal x spelling')
+        run_enumeration(ctx, conversion_grid(), check_case, '4 conversions x 4 outer groups x 4 inner groups x 12 separator texts x 2 positions')
         return
     run_hypothesis(ctx, strategy(spec, ctx), check_case, spec['examples'])
